@@ -1741,3 +1741,178 @@ class PermutationsUnit(DelegationUnit):
 
 
 UNITS += [CombinationsUnit, CombinationsWithReplacementUnit, PermutationsUnit]
+
+
+# ---- groupby ----------------------------------------------------------------------------------------------------------------------
+# specification (step obligation at every yield): the groups are consecutive, non-empty, maximal runs of elements with equal keys -
+# a group starts where the previous one ended, its key is the key of its first element, all its elements have that key, and it ends
+# either at the end of the input or in front of an element with a different key; at the normal end the whole input has been grouped.
+# Keys are compared as values (term equality): `!=` of user objects is assumed to be the negation of an equivalence (A-pure).
+
+KEYF = z3.Function("KEYF", z3.IntSort(), z3.IntSort())
+
+
+def groupby_inv(ip, env):
+    u = ip.ctx.unit
+    h = H(ip.st)
+    i = u.consumed(ip)
+    g = last_pos(h)
+    values = ip.term(env.vars["values"], SAVED)
+    gk = ip.term(env.vars["group_key"], OBJ)
+    q = z3.Int(ip.st.uniq("q"))
+    return [("values_holds_the_run_since_the_last_group_ended_and_all_its_keys_equal_group_key", z3.And(0 <= g, g < i, ip.ctx.loop_k <= u.hi0, gk == u.key_of(u.x(g)), batch_is_slice(u, h, values, g, i - g), forall([q], z3.Implies(z3.And(g <= q, q < i), u.key_of(u.x(q)) == gk), patterns=[u.x(q)]), out_n(h) >= 0, u.out_inv_common(h)))]
+
+
+class GroupbyUnit(GenUnit):
+    funcname = "groupby"
+
+    def key_of(self, t):
+        return KEYF(t) if self.has_key else t
+
+    def make_args(self, ip):
+        self.new_source(ip)
+        self.gen_entry(ip)
+        ip.st.put("GenOut", "last", OUT, z3.IntVal(0))
+        self.has_key = ip.ctx.decide(2, "key-given") == 1
+        key = Builtin("key", lambda ip, a: AwaitableVal("contract", lambda: Sym(KEYF(ip.term(a, OBJ)), OBJ)))
+        return [self.src], ({"key": key} if self.has_key else {})
+
+    def make_list(self, ip, elems):
+        r = lib.new_empty(ip, SAVED)
+        st, cn = ip.st, SAVED.cls
+        for e in elems:
+            hi = st.get(cn, "hi", r.t)
+            st.put(cn, "data", r.t, z3.Store(st.get(cn, "data", r.t), hi, ip.term(e, OBJ)))
+            st.put(cn, "hi", r.t, hi + 1)
+        return r
+
+    def do_yield(self, ip, v):
+        st = ip.st
+        h = H(st)
+        if not (isinstance(v, tuple) and len(v) == 2 and isinstance(v[1], Sym) and v[1].ty is SAVED):
+            ip.ctx.fail("groupby/yield:every_yielded_value_is_a_pair_of_a_key_and_the_list_of_its_group", "post", "unexpected shape of the yielded value")
+            return None
+        k, ref = ip.term(v[0], OBJ), v[1].t
+        d = h.dq(SAVED.cls, ref)
+        ln = d.hi - d.lo
+        g = st.get("GenOut", "last", OUT)
+        q, p = z3.Int(st.uniq("q")), z3.Int(st.uniq("p"))
+        contents = forall([q], z3.Implies(z3.And(d.lo <= q, q < d.hi), z3.Select(d.data, q) == self.x(g + q - d.lo)), patterns=[z3.Select(d.data, q)])
+        same_key = forall([p], z3.Implies(z3.And(g <= p, p < g + ln), self.key_of(self.x(p)) == k), patterns=[self.x(p)])
+        end = g + ln
+        maximal = z3.Or(end == self.n, self.key_of(self.x(end)) != k)
+        ip.ctx.oblige("groupby/yield:every_group_is_the_next_maximal_non_empty_run_of_elements_with_equal_keys", z3.And(ln >= 1, end <= self.n, contents, k == self.key_of(self.x(g)), same_key, maximal), "post")
+        st.put("GenOut", "last", OUT, end)
+        st.put("GenOut", "n", OUT, st.get("GenOut", "n", OUT) + 1)
+        return None
+
+    def after_resume(self, ip, what, payload):
+        super().after_resume(ip, what, payload)
+        h, b = H(ip.st), self.before
+        for key in [(SAVED.cls, "lo"), (SAVED.cls, "hi"), (SAVED.cls, "data")]:
+            ip.st.assume(h.arr(*key) == b.arr(*key))
+
+    def loop_spec(self, qualname, ordinal):
+        frame = {("GenOut", "out"), ("GenOut", "n"), ("GenOut", "pos"), ("GenOut", "last"), (SAVED.cls, "data"), (SAVED.cls, "hi"), (SAVED.cls, "lo"), (SAVED.cls, "cnt")}
+        return LoopSpec(groupby_inv, modifies=frame, local_types={"values": SAVED, "group_key": OBJ, "next_key": OBJ, "element": OBJ})
+
+    def on_exit(self, ip, pre, exc, ret):
+        h = H(ip.st)
+        if exc is not None:
+            ip.ctx.oblige("groupby/post:never_raises_by_itself", z3.BoolVal(exc.pycls is not None and exc.pycls.__name__ == "CancelledError"), "post")
+            return
+        ip.ctx.oblige("groupby/post:at_the_end_the_whole_input_has_been_grouped", z3.And(last_pos(h) == self.n, z3.Implies(self.n == 0, out_n(h) == 0)), "post")
+
+
+UNITS += [GroupbyUnit]
+
+
+# ---- tee(): the front end -------------------------------------------------------------------------------------------------------------
+# ValueError exactly for n < 0; () for n = 0; otherwise a tuple of n iterators: one built from the iterable (TeeInitUnit: fresh
+# state, fresh chain) and n - 1 copies built FROM THAT ITERATOR (TeeInitUnit: same state, same link), in that order.  The generator
+# expression `(_TeeAsyncIterator(iterator) for _ in range(n - 1))` is abstracted to "n - 1 values of its element expression, each
+# evaluated once" (the meaning of a generator expression consumed by list.extend: A-comprehension); the constructor calls are
+# recorded, not executed (their effect is TeeInitUnit's contract).
+
+
+class TeeItems:
+    """Python-level model of the local list `iterators`: explicit first items + (element expression, count) blocks"""
+
+    def __init__(self, items):
+        self.items = list(items)
+        self.blocks = []
+
+
+class Copies:
+    def __init__(self, of, count):
+        self.of, self.count = of, count
+
+
+class TeeFrontUnit(IterUnit):
+    modpath = IT
+    funcname = "tee"
+    trusted = ("E1", "A-comprehension")
+
+    def __init__(self):
+        super().__init__()
+        self.globals = dict(self.globals)
+        self.globals["operator"] = NS("operator", {"index": Builtin("operator.index", lambda ip, v: v)})
+        self.globals["_TeeAsyncIterator"] = Builtin("_TeeAsyncIterator", lambda ip, src: self.construct(ip, src))
+        self.globals["tuple"] = Builtin("tuple", lambda ip, x: ("tuple", x) if isinstance(x, TeeItems) else lib.b_tuple(ip, x))
+        self.globals["range"] = lib.GLOBALS.get("range")
+
+    def make_args(self, ip):
+        self.new_source(ip, "iterable")
+        self.n_arg = Sym(z3.Int("n"), INT)
+        self.built = []
+        return [self.src, self.n_arg], {}
+
+    def construct(self, ip, src):
+        r = ("tee-iterator", len(self.built), src)
+        self.built.append(r)
+        return r
+
+    def make_list(self, ip, elems):
+        return TeeItems(elems)
+
+    def list_comp(self, ip, e, env, mp):
+        g = e.generators[0] if len(e.generators) == 1 else None
+        if g is None or g.ifs or g.is_async or not (isinstance(g.iter, _ast.Call) and _ast.unparse(g.iter.func) == "range" and len(g.iter.args) == 1):
+            raise Unsupported("a generator expression other than (<expr> for _ in range(<count>))")
+        count = ip.eval(g.iter.args[0], env, mp)
+        elt = ip.eval(e.elt, env, mp)  # evaluated once, symbolically standing for each of the `count` evaluations
+        if not (isinstance(elt, tuple) and elt and elt[0] == "tee-iterator"):
+            raise Unsupported("element expression of the generator expression")
+        self.built.remove(elt)
+        return Copies(elt[2], ip.term(count, INT))
+
+    def model_getattr(self, ip, obj, attr):
+        if isinstance(obj, TeeItems) and attr == "extend":
+            return Builtin("list.extend", lambda ip, x: obj.blocks.append(x) if isinstance(x, Copies) else (_ for _ in ()).throw(Unsupported("extend with something else")))
+        return super().model_getattr(ip, obj, attr)
+
+    def on_exit(self, ip, pre, exc, ret):
+        nm = "tee"
+        n = self.n_arg.t
+        if exc is not None:
+            name = exc.pycls.__name__ if exc.pycls is not None else "sym"
+            ip.ctx.oblige(f"{nm}/post:ValueError_exactly_for_a_negative_n", z3.And(z3.BoolVal(name == "ValueError"), n < 0), "post")
+            return
+        if ret == ():
+            ip.ctx.oblige(f"{nm}/post:an_empty_tuple_exactly_for_n_equal_0", n == 0, "post")
+            ip.ctx.oblige(f"{nm}/post:nothing_is_built_for_n_equal_0", z3.BoolVal(not self.built), "post")
+            return
+        ok = isinstance(ret, tuple) and len(ret) == 2 and ret[0] == "tuple" and isinstance(ret[1], TeeItems)
+        if not ok:
+            ip.ctx.fail(f"{nm}/post:returns_the_tuple_of_the_iterators_it_built", "post", f"returned {ret!r}")
+            return
+        items = ret[1]
+        first_ok = len(items.items) == 1 and isinstance(items.items[0], tuple) and items.items[0][0] == "tee-iterator" and isinstance(items.items[0][2], Sym) and items.items[0][2].ty is SRC
+        shape = first_ok and len(items.blocks) == 1 and items.blocks[0].of is items.items[0] and len(self.built) == 1
+        ip.ctx.oblige(f"{nm}/post:one_iterator_over_the_iterable_followed_by_copies_of_that_iterator", z3.BoolVal(bool(shape)), "post")
+        if shape:
+            ip.ctx.oblige(f"{nm}/post:the_first_iterator_is_built_from_the_callers_iterable", ip.term(items.items[0][2], SRC) == self.src.t, "post")
+            ip.ctx.oblige(f"{nm}/post:exactly_n_iterators_for_a_positive_n", z3.And(n >= 1, 1 + items.blocks[0].count == n), "post")
+
+
+UNITS += [TeeFrontUnit]
